@@ -77,7 +77,38 @@ fn byte_stage(prop: &'static str, tier: Tier, seed: u64, out: &mut Outcome) -> O
 fn run_fsx(prop: &'static str, tier: Tier, level: &'static str) -> i32 {
     let seed = env_seed();
     let mut out = fsx_pass(prop, tier, seed, env_cases(fsx::quick_cases(prop, tier)));
-    let engine = byte_stage(prop, tier, seed, &mut out).unwrap_or("fsx");
+    let mut engine = "fsx";
+    if prop == "C04" && out.violation.is_none() {
+        // the same classifier on histories with one failing device call
+        use sdmmc_verif::engines::faults;
+        let cfg = faults::cfg_c04();
+        let thorough = tier == Tier::Thorough;
+        let n = env_cases(0);
+        let cases = if n > 0 { n / 8 + 1 } else { tier.pick(1_500, 60_000) };
+        let o = runner::run_parallel("C04-faults", seed, cases, || fsx::strategy(&cfg), |c: &Case, a| faults::run_case_c04(&cfg, c, a, false, thorough));
+        out.wall_s += o.wall_s;
+        out.acc.merge(o.acc);
+        if o.violation.is_some() {
+            out.violation = o.violation;
+            engine = "c04-faults";
+        }
+    }
+    if prop == "C05" && out.violation.is_none() {
+        // fill / release / refill cycles
+        use sdmmc_verif::engines::c05;
+        let n = env_cases(0);
+        let cases = if n > 0 { n / 16 + 1 } else { tier.pick(400, 30_000) };
+        let o = runner::run_parallel("C05-fill", seed, cases, c05::fill_strategy, |c: &c05::FillCase, a| c05::run_fill_case(c, a, false));
+        out.wall_s += o.wall_s;
+        out.acc.merge(o.acc);
+        if o.violation.is_some() {
+            out.violation = o.violation;
+            engine = "c05-fill";
+        }
+    }
+    if let Some(e) = byte_stage(prop, tier, seed, &mut out) {
+        engine = e;
+    }
     let ev = EvidenceIn {
         prop,
         tier,
@@ -263,7 +294,7 @@ fn run_sd(prop: &'static str, tier: Tier) -> i32 {
     let (level, rule): (&str, &str) = match prop {
         "C12" => ("exploration", "card kind (v1 SC, v2 SC, HC) x CRC on/off x capacity (boundary C_SIZE / multiplier / READ_BL_LEN values) x timings (Ncr 0-8, data-token delay, busy periods, idle polls, ignored CMD0s) x 1-40 BlockDevice calls (read/write of 1, 2-8, 64 blocks at block numbers 0, 1, last, last-n, 2^k, 2^k-1, >= 2^23, random; read-back; num_blocks/num_bytes/get_card_type; mark_card_uninit) against a simulated card written from the SD specification. Oracle: model of the card memory compared everywhere after every call, and the same sequence with every n-block transfer done as n single transfers. non-trivial = contains a multi-block transfer and a read-back of a written block; distinct by (kind, crc, call-kind sequence, Ncr)"),
         "C14" => ("exploration", "the same generated runs as C12; every MOSI byte is checked by the card's protocol monitor (frame bits, CRC-7, busy, CMD55 prefix, identification order, data tokens, 512+2 framing with CRC-16 when on, CMD12 / stop token). non-trivial = run contains a multi-block write and a re-initialisation; distinct by (kind, crc, command sequence on the bus)"),
-        _ => ("fault_enumeration", "C12-style sequences with one injected fault: every single-bit flip position of a data block + CRC (4112 positions, enumerated for each card kind), bursts <= 16 bits, wrong data tokens, rejected data blocks, failed write status, card dead / busy / garbage from byte p, SPI bus error at transaction n. Ok only with correct data (CRC on), Err where the property requires it, SPI byte budget per call (2e9) as termination bound, recovery after power-cycle (+ mark_card_uninit unless the failure was in the identification sequence). non-trivial = the fault fired; distinct by (kind, crc, fault, call-kind sequence)"),
+        _ => ("fault_enumeration", "C12-style sequences with one injected fault: every single-bit flip position of a data block + CRC (4112 positions, enumerated for each card kind), bursts <= 16 bits, wrong data tokens, rejected data blocks, failed write status, card dead / busy / garbage from byte p, SPI bus error at transaction n. Ok only with correct data (CRC on), Err where the property requires it, SPI byte budget per driver call (20,000,000 bytes, enforced by the card) as termination bound, recovery after power-cycle (+ mark_card_uninit unless the failure was in the identification sequence). non-trivial = the fault fired; distinct by (kind, crc, fault, call-kind sequence)"),
     };
     let ev = EvidenceIn {
         prop,
@@ -394,6 +425,15 @@ fn replay(path: &str) -> i32 {
         "crash" => {
             let case: Case = serde_json::from_value(rf.case).expect("case does not parse");
             sdmmc_verif::engines::crash::run_case(&sdmmc_verif::engines::crash::cfg_for(prop), &case, &mut acc, &known, true, true)
+        }
+        "c05-fill" => {
+            let case: sdmmc_verif::engines::c05::FillCase = serde_json::from_value(rf.case).expect("case does not parse");
+            sdmmc_verif::engines::c05::run_fill_case(&case, &mut acc, true)
+        }
+        "c04-faults" => {
+            let case: Case = serde_json::from_value(rf.case).expect("case does not parse");
+            let cfg = sdmmc_verif::engines::faults::cfg_c04();
+            sdmmc_verif::engines::faults::run_case_c04(&cfg, &case, &mut acc, true, true)
         }
         "faults" => {
             let case: Case = serde_json::from_value(rf.case).expect("case does not parse");
